@@ -16,7 +16,7 @@ def pGenRet (j : Json) : GenRet :=
   | "badArity" => .badArity
   | _ => .notGenType
 def pFn (j : Json) : Fn :=
-  { name := jS (jF j "name"), source := jS (jF j "source"), qualDotted := jB (jF j "qualDotted")
+  { name := jS (jF j "name"), flags := flagsOfSource (jS (jF j "name")) (jS (jF j "source")), qualDotted := jB (jF j "qualDotted")
     params := (jL (jF j "params")).map pParam, selfName := jN (jF j "selfName")
     firstIsSelf := jB (jF j "firstIsSelf"), isBound := jB (jF j "isBound")
     retAnn := pOptAnn (jF j "ret"), genRet := pGenRet (jF j "genRet")
